@@ -344,3 +344,98 @@ func VerifH_C08_Concat() {
 	}
 	vrt.Assert(vrt.StrEq(tree2.Root.Argument().String(), got), "c10.concatenated-form-equals-single-quoted-form")
 }
+
+
+// VerifH_C08_Comments: comments are skipped between tokens whatever they contain, and are
+// ordinary text inside quoted strings.  One comment with two symbolic ASCII content
+// bytes at each position of `description "a" + 'b' ;`, and the same text inside the
+// quotes.
+func VerifH_C08_Comments() {
+	c := vrt.Bytes("cm", 2)
+	for _, b := range c {
+		vrt.Assume(vrt.And(b >= 0x20, b < 0x7f))
+	}
+	var cm string
+	if vrt.Bool("line-comment") {
+		cm = "//" + string(c) + "\n"
+	} else {
+		vrt.Assume(vrt.Not(vrt.And(c[0] == '*', c[1] == '/')))
+		cm = "/*" + string(c) + "*/"
+	}
+	pos := vrt.Choice("position", 6)
+	parts := []string{"description", " ", "\"a\"", " + ", "'b'", " ;"}
+	want := "ab"
+	text := ""
+	for i, p := range parts {
+		if i == pos && pos >= 1 && pos <= 5 {
+			text += " " + cm + " "
+		}
+		text += p
+	}
+	if pos == 0 {
+		// inside the double-quoted piece: ordinary text (no escapes, no quote in it)
+		for _, b := range c {
+			vrt.Assume(vrt.And(b != '"', b != '\\'))
+		}
+		vrt.Assume(cm[1] == '*') // a line break inside would bring indentation rules in
+		text = "description \"a" + cm + "\" + 'b' ;"
+		want = "a" + cm + "b"
+	}
+	vrt.Reach("c08.comments")
+	tree, err := Parse("in.yang", text, nil)
+	if err != nil {
+		vrt.Observe("parse-error", text, err.Error())
+	}
+	vrt.Assert(err == nil, "c08.comments.accepted")
+	if err != nil {
+		return
+	}
+	got := tree.Root.Argument().String()
+	vrt.Observe("text", text, got)
+	vrt.Assert(vrt.StrEq(got, want), "c08.comments.argument-value")
+}
+
+// VerifH_C08_Escapes: a double-quoted string of U "units" — a plain character or a
+// backslash pair — so that escape sequences follow one another at every distance
+// (escaped backslash, ordinary text, then another escape ...).
+func VerifH_C08_Escapes() {
+	U := vrt.Param("U", 3)
+	n := 1 + vrt.Choice("units", U)
+	var raw []byte
+	for i := 0; i < n; i++ {
+		tag := "u" + strconv.Itoa(i)
+		if vrt.Bool(tag + ".escape") {
+			e := vrt.Byte(tag + ".e")
+			vrt.Assume(vrt.Or(e == 'n', vrt.Or(e == 't', vrt.Or(e == '"', vrt.Or(e == '\\', e == 'a')))))
+			raw = append(raw, '\\', e)
+		} else {
+			c := vrt.Byte(tag + ".c")
+			vrt.Assume(vrt.Or(c == 'a', vrt.Or(c == 'n', vrt.Or(c == 't', c == ' '))))
+			raw = append(raw, c)
+		}
+	}
+	text := "description \"" + string(raw) + "\";"
+	want, blank := specDecode(raw, len("description "))
+	vrt.Class("C08-empty-lines-inside-double-quoted-string-are-dropped", blank)
+	vrt.Reach("c08.escapes")
+	tree, err := Parse("in.yang", text, nil)
+	if err != nil {
+		vrt.Observe("parse-error", text, err.Error())
+	}
+	vrt.Assert(err == nil, "c08.escapes.accepted")
+	if err != nil {
+		return
+	}
+	got := tree.Root.Argument().String()
+	vrt.Observe("text", text, got)
+	vrt.Assert(vrt.StrEq(got, string(want)), "c08.escapes.argument-value")
+	// C10: the single-quoted spelling of the decoded value gives the same argument
+	// (when the value can be written in single quotes at all)
+	for _, b := range want {
+		vrt.Assume(b != '\'')
+	}
+	tree2, err2 := Parse("in.yang", "description '"+string(want)+"';", nil)
+	if err2 == nil {
+		vrt.Assert(vrt.StrEq(tree2.Root.Argument().String(), got), "c10.escaped-form-equals-single-quoted-form")
+	}
+}
